@@ -461,6 +461,10 @@ def debug_printf(ex, st, args, ins):
         pass
     return 1
 
+@builtin('_exit', 'exit', '_Exit')
+def b_exit(ex, st, args, ins):
+    """the process (of the model) ends here: the path is complete; no leak check (the address space goes away)"""
+    raise _PathEnd('exit')
 @builtin('abort')
 def b_abort(ex, st, args, ins):
     raise MemError('abort', 'abort() called')
